@@ -540,6 +540,10 @@ class Models(object):
             return ns if name is None else getattr(ns, name)
         if modname == 'operator':
             return self._operator_ns() if name is None else getattr(self._operator_ns(), name)
+        if modname == 'types':
+            import types as _types
+            ns = Namespace('types', MappingProxyType=_types.MappingProxyType, SimpleNamespace=_types.SimpleNamespace)
+            return ns if name is None else getattr(ns, name)
         if modname == 'contextlib':
             ns = Namespace('contextlib', contextmanager=_contextmanager, suppress=self._unmodelled('contextlib.suppress'),
                            nullcontext=lambda enter_result=None: _GeneratorContext(iter([enter_result])))
